@@ -64,6 +64,10 @@ def cells(tier: str) -> dict:
         add(f"weekly[{nm},+{k}w]", "weekly", st, k, e_rg(2 * H, 9 * H))
         if tier != "quick":
             add(f"daily[{nm},+{k}w]", "daily", st, k, e_rg(H, 5 * H))
+    # narrow variants (efforts around the boundaries that matter): small path trees
+    for nm, st, k in shifts[:3]:
+        add(f"chain[{nm},+{k}w,narrow]", "chain", st, k, e_rg(60, H, (0, 30)))
+        add(f"weekly[{nm},+{k}w,narrow]", "weekly", st, k, e_rg(4 * H, 6 * H))
     # two-year horizon: the pinned week offset ranges over the weeks around the end of the 53-week ISO year 2026
     add("long[2025,+1w]", "long", datetime(2025, 1, 6), 1, e_rg(6 * H, 9 * H, (101, 105)))
     add("long[2025,+52w]", "long", datetime(2025, 1, 6), 52, e_rg(6 * H, 9 * H, (101, 105)))
